@@ -84,7 +84,7 @@ def molecule(key):
 # ------------------------------------------------------------------------------------------------------
 def C(name, mol, ansatz, mapping, utd=False, engine="ring", M=16, **kw):
     d = dict(name=name, mol=mol, ansatz=ansatz, mapping=mapping, utd=utd, engine=engine, M=M, ref=None, proj=None,
-             penalty=None, defl=None, qham=False, fresh=False, nthetas=None, sym=True, hist=False, budget=6, meas=False, backend=None)
+             penalty=None, defl=None, qham=False, fresh=False, nthetas=None, sym=True, hist=False, budget=6, meas=False, backend=None, init=None)
     d.update(kw)
     return d
 
@@ -137,6 +137,10 @@ def all_configs(quick):
     cf.append(C("H2-circuit-qham-userbackend", "H2", "circuit", "jw", False, qham=True, sym=False, backend="user"))
     cf.append(C("H2-HEA-bk-userbackend", "H2", "HEA", "bk", False, budget=5, backend="user"))
     cf.append(C("H2-UCCSD-jw-userbackend-defl", "H2", "UCCSD", "jw", False, backend="user", defl="two"))
+    # warm start: simulate_options["initial_statevector"] (+ ansatz reference_state="zero")
+    cf.append(C("H2-HEA-jw-initprep", "H2", "HEA", "jw", False, budget=4, init="prep", hist=False))
+    cf.append(C("H2-UCCSD-scbk-inithf", "H2", "UCCSD", "scbk", True, init="hf"))
+    cf.append(C("H2-UpCCGSD-bk-initprep", "H2", "UpCCGSD", "bk", False, init="prep"))
     # frozen orbitals, open shell (4 qubits)
     cf.append(C("LiHfz-UCCSD-jw", "LiH_fz", "UCCSD", "jw", False))
     cf.append(C("LiHfz-UCCSD-scbk", "LiH_fz", "UCCSD", "scbk", True))
@@ -267,6 +271,34 @@ def deflation_circuits(cfg, n):
 
 DEFL_COEFF = 0.75
 
+
+def init_gates(cfg, n):
+    """Gate list whose action on |0...0> is the initial statevector handed to the solver through
+    simulate_options["initial_statevector"] (warm start; the ansatz then uses reference_state="zero")."""
+    from tangelo.linq import Gate
+    if cfg["init"] == "hf":
+        from tangelo.toolboxes.qubit_mappings.statevector_mapping import get_reference_circuit
+        mol = molecule(cfg["mol"])
+        return list(get_reference_circuit(mol.n_active_sos, mol.n_active_electrons, eff_mapping(cfg), eff_utd(cfg), mol.active_spin))
+    gs = [Gate("X", 0), Gate("H", n - 1), Gate("CNOT", 0, n - 1), Gate("S", n - 1), Gate("RY", 0, parameter=math.pi / 4)]
+    if n > 2:
+        gs += [Gate("X", 2), Gate("RX", 1, parameter=math.pi / 2), Gate("CNOT", 2, 1), Gate("T", 2)]
+    return gs
+
+
+def init_statevector(cfg, n):
+    """The amplitudes of that state, in the order the backend advertises (basis state: written down directly;
+    otherwise simulated with the C01-validated backend)."""
+    from tangelo.linq import Circuit, get_backend
+    gs = init_gates(cfg, n)
+    if all(g.name == "X" for g in gs):
+        idx = sum(1 << (n - 1 - int(g.target[0])) for g in gs)          # lsq_first: qubit 0 is the most significant bit
+        sv = np.zeros(2 ** n, dtype=complex)
+        sv[idx] = 1.
+        return sv
+    _, sv = get_backend().simulate(Circuit(gs, n_qubits=n), return_statevector=True)
+    return np.array(sv, dtype=complex)
+
 _user_backend = []
 
 
@@ -299,6 +331,9 @@ def user_backend_class():
 
 class Holder:
     x = None
+    other = None
+    cands = None
+    best = None
 
 
 def n_qubits_of(cfg):
@@ -339,10 +374,29 @@ def make_solver(cfg, holder=None, initial=None):
     if cfg["defl"]:
         opts["deflation_circuits"] = deflation_circuits(cfg, n)
         opts["deflation_coeff"] = DEFL_COEFF
+    if cfg.get("init"):
+        opts.setdefault("simulate_options", {})["initial_statevector"] = init_statevector(cfg, n)
+        if cfg["ansatz"] != "circuit":
+            opts.setdefault("ansatz_options", {})["reference_state"] = "zero"
     if cfg.get("backend") == "user":
         opts["backend_options"] = {"target": user_backend_class()}
     if holder is not None:
-        opts["optimizer"] = lambda f, x0: (f(holder.x), holder.x)
+        def grid_optimizer(f, x0):
+            """candidate-list optimiser: evaluates the energy on a list of vectors and returns the best one; the LAST
+            evaluation is never the returned optimum (simulate() has to rebuild the circuit before it snapshots it)"""
+            cands = getattr(holder, "cands", None)
+            if cands:
+                es = [f(np.array(c)) for c in cands]
+                b = int(np.argmin(es))
+                if b == len(cands) - 1:
+                    f(np.array(cands[0]))
+                holder.best = b
+                return es[b], np.array(cands[b])
+            E = f(holder.x)
+            if getattr(holder, "other", None) is not None:
+                f(np.array(holder.other))
+            return E, holder.x
+        opts["optimizer"] = grid_optimizer
     if initial is not None:
         opts["initial_var_params"] = list(initial)
     v = VQESolver(opts)
@@ -397,6 +451,8 @@ def simulated_gates(cfg, v, n):
     """Gate list of `the state its circuit prepares`: reference (if overridden) + ansatz(theta) + projective part.
     MEASURE gates of a projective circuit are returned separately as post-selection pairs."""
     gs = []
+    if cfg.get("init"):
+        gs += init_gates(cfg, n)              # the state the solver starts from (simulate_options["initial_statevector"])
     ref = expected_reference(cfg, n)
     if ref is not None:
         gs += list(ref)
@@ -518,7 +574,7 @@ def ring_dyadic(num, k, M):
 def exact_claims(cfg, theta):
     """Exact values of N, Sz, S^2 that the property implies for this sample, or {}: at theta = 0 the state of a
     reference-type ansatz is the reference determinant."""
-    if cfg["ansatz"] not in REF_ANSATZ or np.any(np.abs(theta) > 0) or cfg["proj"] or cfg["qham"]:
+    if cfg["ansatz"] not in REF_ANSATZ or np.any(np.abs(theta) > 0) or cfg["proj"] or cfg["qham"] or cfg.get("init") == "prep":
         return {}
     mol = molecule(cfg["mol"])
     if cfg["ref"] == "circuit":
@@ -561,6 +617,10 @@ def drive(chk, cfg, v, theta, Hexp, symops, n):
     try:
         s.E = float(np.real(v.energy_estimation(np.array(theta))))
     except Exception as e:
+        if cfg.get("init") and not np.any(np.array(theta)) and isinstance(e, ValueError):
+            chk.violation("energy_estimation:exception-empty-ansatz-circuit-with-initial-statevector:%s" % cfg["ansatz"],
+                          "%s theta=zeros: energy_estimation raised %s: %s" % (cfg["name"], type(e).__name__, e), s.case)
+            return s
         chk.violation("energy_estimation:exception:%s:%s:%s:%s:%s" % (
             type(e).__name__, "utd" if eff_utd(cfg) else "alt", "theta0" if not np.any(np.array(theta)) else "generic", cfg["ansatz"],
             cfg["mapping"]), "%s theta=%s: energy_estimation raised %s: %s" % (cfg["name"], s.theta, type(e).__name__, e), s.case)
@@ -683,6 +743,7 @@ def judge_sample(chk, s, verdict, rec, lam_min=None):
         return ok
     Eplain = contract(s.hterms, rec["e"], 0, M) / nrm
     s.Eplain = float(Eplain.real)
+    s.hexp = [(to_complex(rec["e"][x], M) / nrm).real for x in range(len(s.hterms))]      # exact <P_j> of the Hamiltonian's words
     s.ovsum = float(sum(to_complex(o, M).real for o in rec["ov"]))
     Eexp = Eplain + DEFL_COEFF * sum(to_complex(o, M) for o in rec["ov"])
     s.Eexp = float(Eexp.real)
@@ -700,7 +761,7 @@ def judge_sample(chk, s, verdict, rec, lam_min=None):
                           tag, np.round(s.theta, 4).tolist(), s.E, " + deflation" if cfg["defl"] else "", Eexp.real, abs(s.E - Eexp.real)),
                       s.case)
         ok = False
-    if (cfg["ansatz"] in REF_ANSATZ and not np.any(np.array(s.theta)) and not (cfg["ref"] or cfg["proj"] or cfg["penalty"] or cfg["qham"])
+    if (cfg["ansatz"] in REF_ANSATZ and not np.any(np.array(s.theta)) and not (cfg["ref"] or cfg["proj"] or cfg["penalty"] or cfg["qham"] or cfg.get("init") == "prep")
             and not s.case.get("optimal_circuit")):
         mf = float(molecule(cfg["mol"]).mf_energy)
         if abs(Eplain.real - mf) > 1e-6:
@@ -896,10 +957,11 @@ def check_simulate(chk, cfg, st, table):
     tsel = [t for t in range(1, len(st.thetas)) if table.get(t) is not None]
     if not tsel or cfg["meas"]:
         return None
-    t = tsel[0]
     h = Holder()
-    h.x = np.array(st.thetas[t])
-    case = {"cfg": cfg["name"], "theta": [float(x) for x in h.x], "simulate": True}
+    h.cands = [np.array(st.thetas[t_]) for t_ in tsel] if len(tsel) > 1 else None
+    h.x = np.array(st.thetas[tsel[0]])
+    h.other = 3 * h.x if len(tsel) == 1 else None
+    case = {"cfg": cfg["name"], "theta": [float(x) for x in h.x], "simulate": True, "mapping": cfg["mapping"]}
     try:
         # initial parameters differ from the optimiser's result (a stale circuit is visible) and are not all zero
         # (reference-type ansaetze have no variational gate at zero and simulate() refuses to start)
@@ -908,6 +970,11 @@ def check_simulate(chk, cfg, st, table):
             init = h.x
         v2 = make_solver(cfg, h, initial=init)
         Eopt = float(np.real(v2.simulate()))
+        t = tsel[h.best] if h.cands else tsel[0]
+        h.x = np.array(st.thetas[t])
+        case["theta"] = [float(x) for x in h.x]
+        # directly after simulate(): the ansatz carries the optimal parameters
+        loaded_ok = np.allclose(np.array(v2.ansatz.var_params, dtype=float), np.array(v2.optimal_var_params, dtype=float), atol=1e-12)
         opt_gates = [g for g in v2.optimal_circuit if g.name != "MEASURE"]      # snapshot before any further call
         opt_json = None
         try:
@@ -933,6 +1000,8 @@ def check_simulate(chk, cfg, st, table):
             bad.append("optimal_energy=%.10f, exact E(theta_opt)=%.10f" % (Eopt, Eexp))
         if not params_ok:
             bad.append("optimal_var_params differ from the optimiser's result")
+        if not loaded_ok:
+            bad.append("ansatz.var_params are not optimal_var_params right after simulate()")
         if isinstance(E2, str):
             bad.append("energy_estimation(optimal_var_params) " + E2)
         elif abs(E2 - Eexp) > TOL:
@@ -952,7 +1021,7 @@ def check_simulate(chk, cfg, st, table):
     try:
         if opt_json is None:
             raise OffGrid("optimal circuit off the grid")
-        gj = opt_json
+        gj = (gates_to_json(init_gates(cfg, st.n), cfg["M"]) if cfg.get("init") else []) + opt_json
         defl = [gates_to_json(list(c), cfg["M"]) for c in deflation_circuits(cfg, st.n)] if cfg["defl"] else []
         s.hterms = words_of(st.H, st.n)
         s.job = {"n": st.n, "engine": cfg["engine"], "gates": gj, "sel": [], "words": [word_to_json(t_, st.n) for t_, _ in s.hterms],
@@ -1033,7 +1102,10 @@ def gen_histories(chk, ntheta, depth, with_rdm, simulate=None, tag="h"):
     for h in hs:
         for c in h:
             kinds[c["kind"]] = kinds.get(c["kind"], 0) + 1
-    want = {"energy", "simulate"} | ({"opexp", "opexpcur", "rdm"} if with_rdm else set())
+    want = {"energy", "simulate", "opexpobj", "resources"} | ({"opexp", "opexpcur", "rdm"} if with_rdm else set())
+    forms = {c["op"] for h in hs for c in h if c["kind"] == "opexpobj"}
+    if not ({"qforeign", "qown"} | ({"fermion"} if with_rdm else set())) <= forms:
+        raise tlc.TLCError("vacuity: operator forms never generated: %s" % forms)
     cov = r.coverage_counts() if not simulate else {}
     chk.part("G_histories_" + tag, histories=len(hs), calls_by_action=kinds,
              tlc_action_coverage={a: cov[a][1] for a in ("Do", "OpExp", "OpExpCur", "Rdm") if a in cov})
@@ -1066,7 +1138,7 @@ def replay_history(cfg, st, v, holder, hist, H0terms, state):
     for x, c in enumerate(hist):
         kind, op, t, ex = c["kind"], c["op"], c["t"], c["expect"]
         exp_t = ex if kind != "opexpcur" else state["cur"]
-        th = np.array(st.thetas[t]) if kind != "opexpcur" else None
+        th = np.array(st.thetas[t]) if kind not in ("opexpcur", "resources") else None
         try:
             if kind == "energy":
                 val, want = float(np.real(v.energy_estimation(th))), st.table.get(t)
@@ -1074,8 +1146,22 @@ def replay_history(cfg, st, v, holder, hist, H0terms, state):
                 val, want = float(np.real(v.operator_expectation(op, th, **kw))), st.symtable.get((op, t))
             elif kind == "opexpcur":
                 val, want = float(np.real(v.operator_expectation(op, **kw))), st.symtable.get((op, exp_t))
+            elif kind == "opexpobj":
+                if op == "fermion":
+                    obj, want = molecule(cfg["mol"]).fermionic_hamiltonian, (st.eplain.get(t) if not cfg["penalty"] else None)
+                elif op == "qforeign":
+                    obj, want = st.foreign_op(), st.foreign.get(t)
+                else:
+                    obj, want = st.own_op(), st.eplain.get(t)
+                val = float(np.real(v.operator_expectation(obj, th, **kw)))
+            elif kind == "resources":
+                res = v.get_resources()
+                val = float(res["qubit_hamiltonian_terms"])
+                want = float(len(H0terms) + (len(v.deflation_circuits) if v.deflation_circuits else 0))
             elif kind == "simulate":
                 holder.x = th
+                others = [u for u in range(1, len(st.thetas)) if u != t and st.table.get(u) is not None]
+                holder.other = np.array(st.thetas[others[0]]) if others else None
                 val, want = float(np.real(v.simulate())), st.table.get(t)
                 state["opt"] = t
                 state["optcirc"] = [(g.name, tuple(g.target), tuple(g.control or ()), g.parameter) for g in v.optimal_circuit]
@@ -1086,13 +1172,13 @@ def replay_history(cfg, st, v, holder, hist, H0terms, state):
                 val, want = float(molecule(cfg["mol"]).energy_from_rdms(np.array(g1), np.array(g2))), st.plain.get(t)
         except Exception as e:
             return x, "%s(%s, t=%s) raised %s: %s" % (kind, op, t, type(e).__name__, e)
-        if kind != "opexpcur":
+        if kind not in ("opexpcur", "resources"):
             state["cur"] = t
         if want is not None and abs(val - want) > TOL:
             return x, "%s(%s, t=%s) returned %.10f, exact value of its arguments %.10f" % (kind, op, t, val, want)
         # abstract state after the call
-        if dict(v.qubit_hamiltonian.terms) != H0terms:
-            return x, "target operator not restored after %s(%s)" % (kind, op)
+        if dict(v.qubit_hamiltonian.terms) != H0terms or (state.get("H0obj") is not None and v.qubit_hamiltonian is not state["H0obj"]):
+            return x, "target operator not restored after %s(%s): the solver no longer holds the Hamiltonian it was built with" % (kind, op)
         if state["cur"] is not None and not np.allclose(np.array(v.ansatz.var_params, dtype=float), st.thetas[state["cur"]], atol=1e-12):
             return x, "ansatz parameters are not those of the last call after %s" % kind
         if state.get("optcirc") is not None:
@@ -1115,6 +1201,26 @@ def g_part(chk, st, hists, tag):
         return
     st.symtable = {}
     st.plain = {t: getattr(s, "Eplain", None) for t, s in enumerate(st.samples)} if not (cfg["penalty"] or cfg["qham"]) else {}
+    st.eplain = {t: getattr(s, "Eplain", None) for t, s in enumerate(st.samples)}
+    # a QubitOperator DIFFERENT from the Hamiltonian, over (some of) its words: exact value = contraction with TLC's <P_j>
+    from tangelo.toolboxes.operators import QubitOperator
+    hterms0 = words_of(st.H, st.n)
+    fcoef = [((-1) ** x) * 0.125 * (x + 1) if x < 6 else 0. for x in range(len(hterms0))]
+
+    def foreign_op():
+        F = QubitOperator()
+        for (term, _), c in zip(hterms0, fcoef):
+            if c:
+                F += QubitOperator(term, c)
+        return F
+
+    def own_op():
+        O = QubitOperator()
+        for term, c in hterms0:
+            O += QubitOperator(term, c)
+        return O
+    st.foreign_op, st.own_op = foreign_op, own_op
+    st.foreign = {t: (sum(c * e for c, e in zip(fcoef, s.hexp)) if getattr(s, "hexp", None) is not None else None) for t, s in enumerate(st.samples)}
     for t, s in enumerate(st.samples):
         for w in SYM:
             e = getattr(s, "symexact", {}).get(w)
@@ -1129,7 +1235,7 @@ def g_part(chk, st, hists, tag):
         if v is None or n_since >= 60:
             v = make_solver(cfg, holder)
             H0 = dict(v.qubit_hamiltonian.terms)
-            state = {"cur": None, "opt": None, "optcirc": None}
+            state = {"cur": None, "opt": None, "optcirc": None, "H0obj": v.qubit_hamiltonian}
             n_since = 0
             since = []
         r = replay_history(cfg, st, v, holder, h, H0, state)
@@ -1139,7 +1245,7 @@ def g_part(chk, st, hists, tag):
         if r is not None:
             # isolate: does the history fail on a fresh solver?
             v1 = make_solver(cfg, holder)
-            r1 = replay_history(cfg, st, v1, holder, h, dict(v1.qubit_hamiltonian.terms), {"cur": None, "opt": None, "optcirc": None})
+            r1 = replay_history(cfg, st, v1, holder, h, dict(v1.qubit_hamiltonian.terms), {"cur": None, "opt": None, "optcirc": None, "H0obj": v1.qubit_hamiltonian})
             step, text = r1 if r1 is not None else r
             if r1 is None:
                 # needs the calls of the earlier histories on the same solver: the case is their concatenation
@@ -1191,7 +1297,7 @@ def run(chk):
         nth = 2 if quick else 3
         hs_long = gen_histories(chk, nth, 6 if quick else 10, True, simulate="num=%d" % (10 if quick else 100), tag="sim")
         # solvers built from a qubit Hamiltonian: energy / simulate only (deeper)
-        hq = gen_histories(chk, nth, 3 if quick else 5, False, tag="bfs_qham")
+        hq = gen_histories(chk, nth, 2 if quick else 3, False, tag="bfs_qham")
         for st in hstates:
             if st.cfg["qham"]:
                 g_part(chk, st, hq, "bfs_qham")
